@@ -4,7 +4,7 @@
 (* FocalOps.tla).  Values are rationals <<n, d>> in lowest terms, <<0,0>> = NaN, <<1,0>> =   *)
 (* a float that is not within tolerance of any admissible rational (never equal to an        *)
 (* expected value).  The statistic "std" is observed as its square.                          *)
-(*   kind "apply": X, K (0/1), outs = sequence of [red, out]                                 *)
+(*   kind "apply": X, K (0/1), outs = sequence of [red, out], offset (see Exp)                *)
 (*   kind "mean" : X, passes, excl (sequence of values), out, only_excl (0/1, see MeanV)      *)
 (*   kind "conv" : X, Wt (rational weights), out                                             *)
 (*   kind "hot"  : X (integers), K (0/1), out, outneg (result on the negated raster), as     *)
@@ -21,18 +21,28 @@ First(S) == CHOOSE p \in S : \A q \in S : p[1] < q[1] \/ (p[1] = q[1] /\ p[2] <=
 BuiltIn == {"mean", "max", "min", "range", "std", "var", "sum"}
 
 \* ---------------------------------------------------------------- apply / focal_stats
+\* c.offset # 0: the library saw the raster offset + X (large offset, small spread); X holds the deviations.
+\* Variance, std, range and the NaN count are translation invariant; mean / max / min / the positioned values move
+\* by the offset, the sum by offset * (number of finite cells of the window).
+Exp(c, red, buf) ==
+  LET v == Red(red, buf) IN
+  IF c.offset = 0 \/ IsNaN(v) THEN v
+  ELSE CASE red \in {"mean", "max", "min", "at_0_0", "at_0_last", "at_last_0", "at_centre"} -> Add(v, Q(c.offset))
+         [] red = "sum" -> Add(v, Q(c.offset * Len(FinVals(buf))))
+         [] OTHER -> v
+
 ApplyV(c) ==
   LET bad == {p \in CellsOf(c.X) :
                 LET buf == Buffer(c.X, c.K, p[1], p[2])
-                IN \E k \in 1..Len(c.outs) : c.outs[k].out[p[1]][p[2]] # Red(c.outs[k].red, buf)}
+                IN \E k \in 1..Len(c.outs) : c.outs[k].out[p[1]][p[2]] # Exp(c, c.outs[k].red, buf)}
   IN IF bad = {} THEN <<"ok", "">>
      ELSE LET p == First(bad)
               buf == Buffer(c.X, c.K, p[1], p[2])
-              k == CHOOSE k \in 1..Len(c.outs) : c.outs[k].out[p[1]][p[2]] # Red(c.outs[k].red, buf)
-                                                /\ \A m \in 1..(k-1) : c.outs[m].out[p[1]][p[2]] = Red(c.outs[m].red, buf)
+              k == CHOOSE k \in 1..Len(c.outs) : c.outs[k].out[p[1]][p[2]] # Exp(c, c.outs[k].red, buf)
+                                                /\ \A m \in 1..(k-1) : c.outs[m].out[p[1]][p[2]] = Exp(c, c.outs[m].red, buf)
               red == c.outs[k].red
           IN <<(IF red \in BuiltIn THEN "stat_" ELSE "reducer_") \o red,
-               ToString(<<p, c.outs[k].out[p[1]][p[2]], Red(red, buf)>>)>>
+               ToString(<<p, c.outs[k].out[p[1]][p[2]], Exp(c, red, buf)>>)>>
 
 \* ---------------------------------------------------------------- mean
 \* "a cell is passed through iff its value EQUALS (NaN = NaN) a listed value; every other cell is the window mean".
@@ -41,7 +51,10 @@ ApplyV(c) ==
 \* pass-through clause on rasters whose iterated means would not fit TLC's 32-bit integers: a cell excluded in
 \* the input keeps its value in every pass, so it must come out untouched.
 MeanV(c) ==
-  LET exp == MeanIter(c.X, c.excl, c.passes)
+  LET dev == MeanIter(c.X, c.excl, c.passes)      \* on the deviations; the mean moves with the offset
+      exp == IF c.offset = 0 THEN dev
+             ELSE [r \in 1..Rows(dev) |-> [q \in 1..Cols(dev) |->
+                     IF IsNaN(dev[r][q]) THEN dev[r][q] ELSE Add(dev[r][q], Q(c.offset))]]
       bad == IF c.only_excl = 1
              THEN {p \in CellsOf(c.X) : c.passes > 0 /\ Excluded(c.X[p[1]][p[2]], c.excl)
                                         /\ c.out[p[1]][p[2]] # c.X[p[1]][p[2]]}
